@@ -200,6 +200,9 @@ def run(prop, argv):
         if replay_path:
             case = json.load(open(replay_path))["case"]
             cases = [{"id": 0, "cfg": case["cfg"], "sched": case["sched"], "label": "replay"}]
+            if case["cfg"].get("daemon", {}).get("monMs", 0) > 0:     # a daemon-mode replay is judged by DaemonObs only
+                corelib.daemon_run(rep, binary, wd, cases, prop)
+                return rep.finish()
         else:
             for cfgname, what in plan["mc"] + (plan.get("mc_thorough", []) if tier == "thorough" else []):
                 r = vlib.run_tlc("Core", cfgname, wd, workers=vlib.NCPU, timeout=3300)
@@ -231,6 +234,13 @@ def run(prop, argv):
             rep.cov["phase_s"]["conformance"] = round(_t.time() - _t2, 1)
         rep.cov["traces_validated_against_impl"] = len(events)
         rep.cov["evaluations"] = len(events)
+        if prop in ("C01", "C02", "C14") and not replay_path:
+            # daemon mode: the same clauses with the Store's own monitors running (nothing gated), judged by DaemonObs.tla
+            _t3 = _t.time()
+            dcases = corelib.daemon_cases(seed + {"C01": 1, "C02": 2, "C14": 14}[prop], 10 if tier == "quick" else 120, first_id=len(cases), faults="none")
+            corelib.daemon_run(rep, binary, wd, dcases, prop)
+            rep.cov["traces_validated_against_impl"] += len(dcases)
+            rep.cov["phase_s"]["daemon_mode"] = round(_t.time() - _t3, 1)
         nontriv = 0
         for t, evs in events.items():
             acks = sum(1 for e in evs if e["ack"])
